@@ -119,10 +119,10 @@ func c36Handler(w http.ResponseWriter, r *http.Request) {
 }
 
 type c36Converted struct {
-	err                                  string
+	err                                 string
 	method, uri, url, proto, host, body string
-	major, minor                         int
-	header                               http.Header
+	major, minor                        int
+	header                              http.Header
 }
 
 func (c *c36Converted) render() string {
@@ -150,9 +150,15 @@ func c36FromHTTPRequest(r *http.Request) *c36Converted {
 	for k, vv := range r.Header {
 		h[k] = append([]string(nil), vv...)
 	}
+	// the URL field by field (URL.String() would hide where a byte ended up: "/a#b" as Path prints as "/a%23b")
 	u := ""
 	if r.URL != nil {
-		u = r.URL.String()
+		user := ""
+		if r.URL.User != nil {
+			user = r.URL.User.String()
+		}
+		u = fmt.Sprintf("scheme=%q opaque=%q user=%q host=%q path=%q rawpath=%q forcequery=%v rawquery=%q fragment=%q rawfragment=%q",
+			r.URL.Scheme, r.URL.Opaque, user, r.URL.Host, r.URL.Path, r.URL.RawPath, r.URL.ForceQuery, r.URL.RawQuery, r.URL.Fragment, r.URL.RawFragment)
 	}
 	return &c36Converted{method: r.Method, uri: r.RequestURI, url: u, proto: r.Proto, major: r.ProtoMajor, minor: r.ProtoMinor,
 		host: r.Host, header: h, body: string(body)}
@@ -616,6 +622,11 @@ func c36BuildReq(a [][]byte) *Case {
 	}
 	return &Case{Lines: lines, Impl: impl, Tags: tags, Nontrivial: ref.err == "" && okParse && got.err == "" && len(ref.header) >= 1,
 		Judge: func(rp []string) Verdict {
+			if r != nil && r.URL != nil && r.URL.Scheme != "" && r.URL.Host == "" {
+				// absolute-form target with an empty host ("http://user@/"): invalid, "a recipient MUST reject it"
+				// (RFC 9110 4.2.1) — which requests are accepted is C01/C09's subject
+				return Verdict{Kind: VInconclusive}
+			}
 			if ref.err != "" || !okParse || got.err != "" {
 				// one of the two parsers rejects the bytes: which requests are accepted is C01/C09's subject
 				_ = xerr
@@ -740,7 +751,7 @@ func init() {
 		Rule: "prog: handler programs of 0..9 ops over WriteHeader(code in {100,102,103,199,101,200,201,204,299,301,304,404,500,999}), Header().Add/Set/Del over 7 names " +
 			"(canonical and lower-case spellings, incl. Set-Cookie/Content-Type/Cache-Control) x 5 values, Write(0..40 bytes text or html), Flush; each run under GET/HEAD/POST x HTTP/1.0|1.1 " +
 			"against net/http's server AND fasthttp+adaptor with the same http.Handler; structured shapes (1xx then final, header op after WriteHeader/Write/Flush, repeated Add) are generated on purpose; " +
-			"thorough adds all programs of <=4 ops over a 9-op alphabet. req: grammar-built requests (7 methods, origin/absolute targets with escapes+query, HTTP/1.0|1.1, 0..6 fields with repeated and mixed-case names, " +
+			"thorough adds all programs of <=4 ops over a 9-op alphabet. req: grammar-built requests (7 methods; origin-form, absolute-form and '*' targets incl. literal '#', leading '//', '?' after '#', %23/%2F/%3f, ':' '@' ';' — fixed shapes plus random strings over the RFC 3986 delimiters; URL compared field by field: scheme/opaque/user/host/path/rawpath/rawquery/fragment, HTTP/1.0|1.1, 0..6 fields with repeated and mixed-case names, " +
 			"Content-Length or chunked bodies) parsed by http.ReadRequest and by fasthttp+ConvertRequest. non-trivial = program with >=2 ops incl. a WriteHeader or header op / request accepted by both with >=1 field; distinct = distinct input",
 		Parallel:   true,
 		NoShrink:   true, // the generic shrinker edits bytes inside arguments (method names, codes); programs are emitted short-first instead
@@ -749,7 +760,7 @@ func init() {
 			"net/http's server (the toolchain's version) is the reference; Spec.NetHTTPWriter is validated against it on every generated program (sampling, not proof)",
 			"compared: final status, values of every header name the handler touched (per name, in order), body (not for HEAD); sniffed Content-Type, Date, Content-Length/Transfer-Encoding/Connection are excluded unless set by the handler; Content-Type on bodiless statuses (1xx/204/304) excluded",
 			"trailers, Hijack, panicking handlers, invalid status codes (<100, >999) and handler-set Content-Length/Transfer-Encoding/Connection/Date/Trailer are outside the generated programs",
-			"requests rejected by either parser are not compared (acceptance is C01/C09); ContentLength/TransferEncoding/RemoteAddr/TLS fields are not part of the statement",
+			"requests rejected by either parser, and absolute-form targets with an empty host (invalid, RFC 9110 4.2.1), are not compared (acceptance is C01/C09); the URL is compared field by field (scheme, opaque, userinfo, host, path, rawpath, rawquery, fragment); ContentLength/TransferEncoding/RemoteAddr/TLS fields are not part of the statement",
 			"in-memory listener instead of TCP",
 		},
 		Build: func(kind string, a [][]byte) *Case {
@@ -840,7 +851,20 @@ func c36Gen(r *Rand, tier string, emit func(string, ...[]byte)) {
 	}
 	// requests
 	rm := []string{"GET", "POST", "PUT", "HEAD", "DELETE", "OPTIONS", "PATCH"}
-	targets := []string{"/", "/a/b", "/a%20b?x=1&y=2", "/p?q=a+b", "/%41?%42=%43", "http://other.example/abs?z=1", "/a//b/../c", "/x;y=1", "*", "/?", "/a?b?c"}
+	targets := []string{"/", "/a/b", "/a%20b?x=1&y=2", "/p?q=a+b", "/%41?%42=%43", "http://other.example/abs?z=1", "/a//b/../c", "/x;y=1", "*", "/?", "/a?b?c",
+		"/page#section", "/search?q=go#results", "//cdn.example.org/lib.js", "/x%23y?z=%23", "/a#b?c", "//", "/#", "https://Other.example:8443/p?q#f", "/a:b@c", "/:80"}
+	// plus targets built from the delimiters of RFC 3986: every position of '#', '?', "//", ':', '@', ';', pct-escapes
+	tgtTok := []string{"/", "//", "a", "b.c", "#", "?", "%23", "%2F", "%3f", ":", "@", ";", "=", "&", "+", ".", "..", "%20", "~", "!"}
+	mkTarget := func() string {
+		if r.Chance(55) {
+			return r.Pick(targets)
+		}
+		t := r.Pick([]string{"/", "/", "/", "//", "http://h.example", "/a"})
+		for k, m := 0, r.Intn(6); k < m; k++ {
+			t += r.Pick(tgtTok)
+		}
+		return t
+	}
 	hn := []string{"X-A", "x-a", "X-a", "Accept", "accept", "User-Agent", "Content-Type", "Cookie", "X-Forwarded-For", "Accept-Encoding", "Authorization", "referer", "Connection", "Cookie", "Pragma"}
 	hv := []string{"1", "a, b", "text/plain", "k=v", "k=v; k2=v2", "Mozilla/5.0 (X11)", "gzip", "Basic Zm9v", "", "x  y", "close", "keep-alive", "no-cache"}
 	single := map[string]bool{"content-type": true, "user-agent": true, "cookie": true, "authorization": true, "referer": true}
@@ -848,7 +872,7 @@ func c36Gen(r *Rand, tier string, emit func(string, ...[]byte)) {
 		var b bytes.Buffer
 		m := r.Pick(rm)
 		minor := r.Pick([]string{"1", "1", "0"})
-		fmt.Fprintf(&b, "%s %s HTTP/1.%s\r\n", m, r.Pick(targets), minor)
+		fmt.Fprintf(&b, "%s %s HTTP/1.%s\r\n", m, mkTarget(), minor)
 		used := map[string]bool{}
 		hostAt := r.Intn(4)
 		nf := r.Intn(7)
